@@ -33,6 +33,81 @@ PROPS["C04"] = {
     ],
 }
 
+PROPS["C15"] = {
+    "features": ["c15"],
+    "modules": ["c15_order::"],
+    "needs_rand_090": False,
+    "has_thorough_harnesses": False,
+    "functions": [
+        "ec_core::test_results::{Score<i64>,Error<i64>}::{cmp,partial_cmp,eq,lt,le,gt,ge}",
+        "<ec_core::test_results::TestResult<i64,i64> as PartialOrd>::partial_cmp / PartialEq::eq",
+        "<ec_core::test_results::TestResults<{Score,Error}<i64>> as {Ord,PartialOrd}>::{cmp,partial_cmp}, len, is_empty",
+        "<TestResults<R> as From<I>>::from for R in {Score<i64>,Error<i64>}, I in {Copied<slice::Iter<i64>>, Vec<i64>}",
+        "<ec_core::individual::ec::EcIndividual<u8,TestResults<_>> as {Ord,PartialOrd}>::{cmp,partial_cmp}, genome, test_results",
+        "<ec_core::individual::ec::IndividualGenerator<_,FnScorer<_>> as Distribution<_>>::sample, WithScorer::with_scorer",
+        "<ec_core::operator::genome_scorer::GenomeScorer<_,_> as Operator<&P>>::apply",
+    ],
+    "bounds": {
+        "quick": "all i64 triples (full width) for Score/Error/TestResult; result vectors of lengths (0,0),(0,2),(1,1),(3,1),(3,3) with "
+                 "arbitrary i64 entries, arbitrary totals and genomes for the ordering of TestResults/EcIndividual; "
+                 "TestResults::from over every i64 vector of length 0..=4 whose left-to-right partial sums fit in i64; "
+                 "IndividualGenerator/GenomeScorer for every 64-bit generated genome and both maker outcomes",
+    },
+    "outside": "result vectors longer than 4; sums that overflow i64 (panic in dev, wrap in release; stated as outside the property); payload types other than i64",
+    "assumptions": [
+        "TestResults::from: the mathematical sum (and every left-to-right partial sum) fits the payload type",
+        "scorer and genome generator are pure probe closures supplied by the harness",
+    ],
+}
+
+PROPS["C10"] = {
+    "features": ["c10"],
+    "modules": ["c10_xo::"],
+    "functions": [
+        "<ec_linear::recombinator::two_point_xo::TwoPointXo as Recombinator<[Vec<u8>;2]>>::recombine, ... <(Vec<u8>,Vec<u8>)>, <[Bitstring;2]>, <(Bitstring,Bitstring)>",
+        "<ec_linear::recombinator::uniform_xo::UniformXo as Recombinator<_>>::recombine for the same four parent shapes",
+        "<ec_linear::genome::bitstring::Bitstring as Crossover>::{crossover_gene,crossover_segment}, Linear::{size,gene_mut}",
+        "rand 0.9.0: Rng::random_range(usize range), Rng::random::<bool>() on the symbolic generator",
+    ],
+    "bounds": {
+        "quick": "every random stream (SymRng: each draw a fresh symbolic word); tagged parents of equal length L=0..=4 (two-point: Vec array flavour and "
+                 "Bitstring array flavour for every L, tuple flavours for two L; uniform: all four flavours, L=0..=4); unequal lengths "
+                 "(0,1),(1,0),(2,3),(3,1); exchange primitives on bitstrings of lengths (0,0),(1,1),(2,3),(3,2),(3,3) with symbolic "
+                 "contents, index any usize, range start/end any usize pair; 9 segment-occurs covers per two-point instance",
+        "thorough": "as quick plus the remaining unequal length pairs up to 3 and exchange primitives for lengths (0,2),(2,0),(1,3),(2,2),(4,4),(4,2)",
+    },
+    "outside": "genomes longer than 4; gene types other than u8/bool; 'equally likely' segments (only occurrence of every segment is decided, the "
+               "distribution over segments is not part of C10); reversed ranges start > end are only required not to panic and not to change anything",
+    "assumptions": [
+        "rand 0.9.0 sampling algorithms run unmodified on the symbolic generator",
+    ],
+    "cover_replay_tests": {"two_point": "two_point_segments_reachable"},
+}
+
+PROPS["C14"] = {
+    "features": ["c14"],
+    "modules": ["c14_compose::"],
+    "needs_rand_090": False,
+    "functions": [
+        "<ec_core::operator::composable::{Then,And,Map,RepeatWith<_,N>} as Operator<_>>::apply (Map over [T;2], (T,T), Vec<T>)",
+        "Composable::{then,and,map,then_map,apply_twice,apply_n_times}",
+        "<{ThenError,AndError,MapError} as {Display,Error}>::{fmt,source}",
+        "<ec_core::operator::{identity::Identity,constant::Constant,genome_extractor::GenomeExtractor} as Operator<_>>::apply",
+        "<ec_core::operator::{selector::Select,mutator::Mutate,recombinator::Recombine} as Operator<_>>::apply, and the &S / &M / &mut M / &R forwarding impls",
+    ],
+    "bounds": {
+        "quick": "probe operators on u64 that log (call index, input, word drawn) and fail at a SYMBOLIC global call index; all inputs and all "
+                 "random words symbolic (SymRng); compositions: then, and, map over [T;2] / (T,T) / Vec of length 0..=3, repeat N=0..=3, apply_twice, "
+                 "three nestings of depth 2-3 (4, 4 and 5 component calls), select->extract->mutate pipeline, wrappers by value / & / &mut",
+        "thorough": "as quick plus the depth-3 nesting ((P1 then P2) twice) then_map P3 with 6 component calls and a symbolic failing call",
+    },
+    "outside": "compositions nested deeper than 3 or with more than 6 component calls; vectors longer than 3 (the combinators are not recursive: "
+               "deeper nestings are compositions of the verified cases, an induction that is not machine-checked)",
+    "assumptions": [
+        "error identification is observed through the public Display/Error::source of ThenError/AndError/MapError (their types are in private modules)",
+    ],
+}
+
 
 def caps(cfg, tier):
     return cfg.get("caps", DEFAULT_CAPS)[tier] if isinstance(cfg.get("caps"), dict) else DEFAULT_CAPS[tier]
